@@ -9,13 +9,26 @@
 #include "message.h"
 static size_t g_ds; static const char *last_colon; static int tags_found, arg_wrong, size_wrong, called_unknown, last_exist; static const char *last_name;
 void snoopy_error_handler(char const * const m){ (void)m; }
+#ifdef H_APPEND_STUB
+/* contract model of snoopy_message_append (the real one + snoopy_util_string_append are proved for all sizes in C05.append.sizes):
+   precondition checked at every call site; the message buffer's CONTENT is never read by generateFromFormat, so the model does not
+   store into it (every store at a symbolic offset of the symbolic-size buffer multiplies cbmc's array constraints: > 8 GB per iteration) */
+static size_t g_bs; static char *g_msg; static int append_bad;
+void snoopy_message_append(char *logMessage, size_t logMessageBufSize, char const * const appendThis){
+  __CPROVER_assert(logMessage == g_msg && logMessageBufSize == g_bs, "append precondition: the caller's message buffer with its true size");
+  __CPROVER_assert(__CPROVER_r_ok(appendThis, 1), "append precondition: text to append readable"); (void)strlen(appendThis);
+}
+#endif
 int snoopy_datasourceregistry_doesNameExist(char const * const n){ __CPROVER_assert(__CPROVER_r_ok(n, 1), "registry precondition: name readable"); (void)strlen(n); last_name = n; last_exist = nondet_bool(); return last_exist; }
 int snoopy_datasourceregistry_callByName(char const * const n, char * const buf, size_t sz, char const * const arg){
   __CPROVER_assert(__CPROVER_r_ok(arg, 1) && sz >= 1 && __CPROVER_w_ok(buf, sz), "data source precondition: argument readable, result buffer of the given size writable");
   if (!(last_exist && last_name == n)) called_unknown = 1;
   if (sz != g_ds + 1) size_wrong = 1;
   if (last_colon ? (arg != last_colon + 1) : (arg[0] != 0)) arg_wrong = 1;
-  __CPROVER_havoc_slice(buf, sz); size_t k = nondet_size_t(); __CPROVER_assume(k < sz); buf[k] = 0;
+#ifndef H_APPEND_STUB
+  __CPROVER_havoc_slice(buf, sz);
+#endif
+  size_t k = nondet_size_t(); __CPROVER_assume(k < sz); buf[k] = 0;
   return nondet_int(); }
 /* the two strstr uses of the function, size level: "%{" / "}" in the format (tag search, at most 3 tags here) and ":" in the tag */
 char *strstr(const char *h, const char *n){
@@ -23,7 +36,10 @@ char *strstr(const char *h, const char *n){
   int is_colon = (n[0] == ':'), is_open = (n[0] == '%');
   if (is_colon) last_colon = 0;
   if (nl > hl || nondet_bool()) return 0;
-  if (is_open) { if (tags_found >= 3) return 0; tags_found++; }
+#ifndef H_MAXTAGS
+#define H_MAXTAGS 3
+#endif
+  if (is_open) { if (tags_found >= H_MAXTAGS) return 0; tags_found++; }
   size_t k = nondet_size_t(); __CPROVER_assume(k <= hl - nl);
   if (is_open) __CPROVER_assume(h[k] == '%' && h[k + 1] == '{');
   else if (n[0] == '}') __CPROVER_assume(k >= 2 && h[k] == '}');          /* the first '}' after "%{" */
@@ -36,10 +52,20 @@ void harness(void){
 #define BSMAX 1048577
 #define DSMAX 1048576
 #endif
+#ifdef H_CONCRETE
+  /* concrete size tuple (format length, message buffer, data-source limit): cbmc's array encoding of symbolic-SIZE objects written at
+     symbolic offsets explodes after a handful of appends (measured: one loop iteration > 8 GB), concrete-size objects are flattened */
+  char *fmt = malloc(H_FMTLEN + 1); fmt[H_FMTLEN] = 0; if (H_FMTLEN > 0) __CPROVER_assume(fmt[0] != 0); verif_register_string(fmt, H_FMTLEN);
+  size_t bs = H_BS; g_ds = H_DS;
+#else
   char *fmt = verif_mk_string(FMTMAX);
   size_t bs = nondet_size_t(); g_ds = nondet_size_t();
   __CPROVER_assume(bs >= 1 && bs <= BSMAX && g_ds >= 1 && g_ds <= DSMAX);
+#endif
   char *msg = malloc(bs); msg[0] = 0;
+#ifdef H_APPEND_STUB
+  g_bs = bs; g_msg = msg;
+#endif
   tags_found = arg_wrong = size_wrong = called_unknown = last_exist = 0; last_colon = 0; last_name = 0;
   snoopy_message_generateFromFormat(msg, bs, g_ds, fmt);
   __CPROVER_assert(!size_wrong, "expansion: every data source gets a buffer of dataSourceMsgMaxLength+1 bytes (contributes at most dataSourceMsgMaxLength)");
